@@ -84,18 +84,21 @@ def unit_xlsx_row_writer_write_row():
         loc = Ref("Location"); st.heap[loc.oid] = {"file_path": "<xlsx>", "_line": line0, "_column": 0, "_cell": 0, "_sheet": 0, "_has_column": False, "_has_cell": True, "_has_sheet": False}
         ws = Ref("Worksheet"); st.heap[ws.oid] = {}
         self = Ref("XlsxRowWriter"); st.heap[self.oid] = {"_location": loc, "_worksheet": ws, "_workbook": Ref("Workbook")}
-        st.frames[-1].env.update({"self": self, "row_to_write": row}); st.ghost.update({"row": row, "line0": line0, "loc": loc, "cells_written": 0})
+        st.frames[-1].env.update({"self": self, "row_to_write": row}); st.ghost.update({"row": row, "line0": line0, "loc": loc, "cells_written": 0, "beyond_limits": False})
     def m_write_string(ex, st, recv, args, kw):
         i = lift(st.frames[-1].env["_i0"]).z
         ex.obligations.append(Obligation("item-j-of-the-row-goes-to-cell-(current-line,-j)-as-a-string-cell-each-item-once-in-order", st.pc,
                                          z3.And(lift(args[0]).z == G(st, "line0"), lift(args[1]).z == i, lift(args[2]).z == st.ghost["row"].at(i), G(st, "cells_written") == i), "post", props=["C16"]))
-        st.ghost["cells_written"] = Sym(INT, G(st, "cells_written") + 1); yield st, None
+        # A-XLSX: write_string answers 0 when the cell is stored as given and a negative number when it is beyond the limits of the format (then skipped or truncated)
+        sb = st.copy(); r = fresh(INT, "write_result")[0]; sb.pc.append(r.z < 0); sb.ghost["beyond_limits"] = True; yield sb, r
+        st.ghost["cells_written"] = Sym(INT, G(st, "cells_written") + 1); yield st, 0
     def make(ctx):
         c = Contract("rowio.XlsxRowWriter.write_row", setup,
-                returns=[Clause("cells_written == len(row)", "every-item-is-written", props=["C16"]), Clause("loc._line == line0 + 1 and loc._cell == 0", "advances-to-the-next-row", props=["C16"])],
-                raises={}, loops={0: LoopSpec(invariants=["loc._cell == _i0", "cells_written == _i0", "loc._line == line0"], havoc={"item": STR, "column_index": INT, "loc._cell": INT}, ghost_havoc={"cells_written": INT})},
-                expect=["return"], n_loops=1, raises_only_props=["C16", "C10"])
-        return {"contract": c, "callees": {"ref:Worksheet.write_string": m_write_string}, "assumptions": ["xlsxwriter's Worksheet.write_string(row, col, text) stores a string cell (A-XLRD side audited by the workbook round trip)"]}
+                returns=[Clause("cells_written == len(row)", "every-item-is-written-as-given", props=["C16"]), Clause("loc._line == line0 + 1 and loc._cell == 0", "advances-to-the-next-row", props=["C16"]),
+                         Clause(lambda ex, st: Sym(BOOL, z3.BoolVal(not st.ghost.get("beyond_limits"))), "returns-only-if-no-cell-was-beyond-the-limits-of-the-file-format", props=["C16"])],
+                raises={"DataFormatError": [Clause(lambda ex, st: Sym(BOOL, z3.BoolVal(bool(st.ghost.get("beyond_limits")))), "refuses-only-a-cell-the-file-format-cannot-hold", props=["C16", "C10"])]}, loops={0: LoopSpec(invariants=["loc._cell == _i0", "cells_written == _i0", "loc._line == line0"], havoc={"item": STR, "column_index": INT, "loc._cell": INT}, ghost_havoc={"cells_written": INT})},
+                expect=["return", "DataFormatError"], n_loops=1, raises_only_props=["C16", "C10"])
+        return {"contract": c, "callees": {"ref:Worksheet.write_string": m_write_string}, "assumptions": ["A-XLSX: xlsxwriter's Worksheet.write_string(row, col, text) stores a string cell and answers 0, or answers a negative number for a cell beyond the limits of the format (audited by the workbook round trip incl. 32768 characters / 16385 columns)"]}
     return ProofUnit("rowio.XlsxRowWriter.write_row", "XlsxRowWriter.write_row: item j of the i-th written row goes to cell (i, j) as a string cell", ["C16"], make, None)
 
 
@@ -220,3 +223,24 @@ def unit_row_writer_write_rows():
                 expect=["return", "DataFormatError"], n_loops=1, raises_only_props=["C10"])
         return {"contract": c, "callees": {"ref:DelimitedRowWriter.write_row": m_write_row}, "assumptions": ["write_row of the concrete writer is used through its verified contract"]}
     return ProofUnit("rowio.AbstractRowWriter.write_rows", "AbstractRowWriter.write_rows: rows go to write_row in order, each once", ["C12", "C14", "C10"], make, None)
+
+
+def unit_xlsx_row_writer_write_rows():
+    """XlsxRowWriter overrides write_rows (it has no target stream): same contract as the general one"""
+    def setup(ex, st):
+        self = Ref("XlsxRowWriter"); st.heap[self.oid] = {"_workbook": Ref("Workbook"), "_target_stream": None}
+        rows, c = fresh(UFList(INT), "rows"); st.pc.extend(c)
+        st.frames[-1].env.update({"self": self, "rows_to_write": rows}); st.ghost.update({"rows": rows, "written": 0, "failed_at": -1})
+    def m_write_row(ex, st, recv, args, kw):
+        i = lift(st.frames[-1].env["_i0"]).z
+        ex.obligations.append(Obligation("write_row-receives-the-rows-in-order-each-once", st.pc, z3.And(lift(args[0]).z == st.ghost["rows"].at(i), G(st, "written") == i), "protocol", props=["C16"]))
+        sb = st.copy(); sb.ghost["failed_at"] = Sym(INT, i); yield from raise_new(ex, sb, "DataFormatError")
+        st.ghost["written"] = Sym(INT, G(st, "written") + 1); yield st, None
+    def make(ctx):
+        c = Contract("rowio.XlsxRowWriter.write_rows", setup,
+                returns=[Clause("written == len(rows)", "every-row-is-passed-to-write_row", props=["C16"])],
+                raises={"DataFormatError": [Clause("failed_at >= 0 and written == failed_at", "stops-at-the-first-failing-row-with-all-earlier-rows-written", props=["C16"])]},
+                loops={0: LoopSpec(invariants=["written == _i0", "failed_at == -1"], havoc={"row_to_write": INT}, ghost_havoc={"written": INT})},
+                expect=["return", "DataFormatError"], n_loops=1, raises_only_props=["C10", "C16"])
+        return {"contract": c, "callees": {"ref:XlsxRowWriter.write_row": m_write_row}, "assumptions": ["XlsxRowWriter.write_row is used through its verified contract; the writer is open (workbook present)"]}
+    return ProofUnit("rowio.XlsxRowWriter.write_rows", "XlsxRowWriter.write_rows: works without a target stream; rows go to write_row in order, each once", ["C16", "C10"], make, None)
